@@ -8,6 +8,7 @@
 package mgmt
 
 import (
+	"math"
 	"strconv"
 	"time"
 
@@ -106,6 +107,14 @@ func (r *RIBModule) register(interest *spec.Interest, pitToken []byte, inFace ui
 	flags := table.RouteFlagChildInherit
 	if params.Flags != nil {
 		flags = *params.Flags
+	}
+
+	if params.ExpirationPeriod != nil && *params.ExpirationPeriod > uint64(math.MaxInt64/int64(time.Millisecond)) {
+		// Milliseconds that do not fit a time.Duration
+		core.LogWarn(r, "ExpirationPeriod ", *params.ExpirationPeriod, " is out of range in ", interest.Name())
+		response = makeControlResponse(400, "ControlParameters is incorrect", nil)
+		r.manager.sendResponse(response, interest, pitToken, inFace)
+		return
 	}
 
 	expirationPeriod := (*time.Duration)(nil)
